@@ -161,6 +161,9 @@ def _roles_single_chunk(f: Func) -> Dict[str, str]:
 def _roles_group_func_wrap(f: Func) -> Dict[str, str]:
     roles: Dict[str, str] = {}
     name_p = f.named_params[0]
+    # names that hold the list of (result, count) pairs returned by the workers
+    pm_results = {s.targets[0].id for s in walk_no_nested(f.node) if isinstance(s, ast.Assign) and len(s.targets) == 1
+                  and isinstance(s.targets[0], ast.Name) and _call_ends(s.value, "parallel_map")}
     for s in walk_no_nested(f.node):
         if not isinstance(s, ast.Assign):
             continue
@@ -182,7 +185,7 @@ def _roles_group_func_wrap(f: Func) -> Dict[str, str]:
                     if k.arg is None and isinstance(k.value, ast.Name):
                         roles.setdefault("kwargs", k.value.id)
             elif isinstance(v, ast.Call) and norm(v.func) == "zip" and v.args and isinstance(v.args[0], ast.Starred) \
-                    and isinstance(v.args[0].value, ast.Name) and v.args[0].value.id == t0.elts[0].id:
+                    and isinstance(v.args[0].value, ast.Name) and v.args[0].value.id in pm_results:
                 roles.setdefault("chunks", t0.elts[0].id)
                 roles.setdefault("counts", t0.elts[1].id)
         if isinstance(t0, ast.Name) and _call_ends(v, "_chunk_groupby_args"):
